@@ -40,18 +40,18 @@ Variable prods : list bprod.
 Variable ms : list meth.
 
 Notation acts := (actions ms).
-Notation has_type := (has_type o tok rules prods ms).
-Notation typing := (typing o tok rules prods ms).
+Notation has_type := (has_type o tok err rules prods ms).
+Notation typing := (typing o tok err rules prods ms).
 Notation accepts := (accepts o tok err).
-Notation rt_final := (rt_final o tok rules prods ms).
-Notation reduce2 := (reduce_type o tok rules prods reduce_fuel).
-Notation pass' := (pass o tok rules prods).
-Notation derive' := (derive o tok rules prods).
+Notation rt_final := (rt_final o tok err rules prods ms).
+Notation reduce2 := (reduce_type o tok err rules prods reduce_fuel).
+Notation pass' := (pass o tok err rules prods).
+Notation derive' := (derive o tok err rules prods).
 Notation rt0 := (phase1_types o rules acts).
 Notation source_rel := (source_rel rules prods).
 Notation fty := (fty tok).
 Notation value := (value o).
-Notation settled := (settled o tok rules prods).
+Notation settled := (settled o tok err rules prods).
 Notation binding_ok_with := (binding_ok_with o tok err rules prods ms).
 Notation user_production := (user_production rules prods).
 Notation method_of := (method_of rules ms).
@@ -88,19 +88,19 @@ Lemma has_type_ind' : forall (P : nat -> ty -> Prop),
   (forall i r p0 rest p x xs t,
      nth_error rules i = Some r -> br_kind r = ZeroOrOne ->
      br_prods r = p0 :: rest -> nth_error prods p0 = Some p -> bp_terms p = x :: xs ->
-     ((fst x = true /\ t = tok) \/ (fst x = false /\ has_type (snd x) t /\ P (snd x) t)) ->
+     ((fst x = true /\ t = terminal_ty tok err (snd x)) \/ (fst x = false /\ has_type (snd x) t /\ P (snd x) t)) ->
      P i t) ->
   (forall i r q p1 rest p x xs t,
      nth_error rules i = Some r -> is_plus (br_kind r) ->
      br_prods r = q :: p1 :: rest -> nth_error prods p1 = Some p -> bp_terms p = x :: xs ->
-     ((fst x = true /\ t = tok) \/ (fst x = false /\ has_type (snd x) t /\ P (snd x) t)) ->
+     ((fst x = true /\ t = terminal_ty tok err (snd x)) \/ (fst x = false /\ has_type (snd x) t /\ P (snd x) t)) ->
      P i (slice_of o t)) ->
   (forall i r p0 rest p c xs rc q p1 rest' pc x xs' t,
      nth_error rules i = Some r -> is_star (br_kind r) ->
      br_prods r = p0 :: rest -> nth_error prods p0 = Some p -> bp_terms p = (false, c) :: xs ->
      nth_error rules c = Some rc -> is_plus (br_kind rc) ->
      br_prods rc = q :: p1 :: rest' -> nth_error prods p1 = Some pc -> bp_terms pc = x :: xs' ->
-     ((fst x = true /\ t = tok) \/ (fst x = false /\ has_type (snd x) t /\ P (snd x) t)) ->
+     ((fst x = true /\ t = terminal_ty tok err (snd x)) \/ (fst x = false /\ has_type (snd x) t /\ P (snd x) t)) ->
      P i (slice_of o t)) ->
   forall i t, has_type i t -> P i t.
 Proof.
@@ -271,7 +271,7 @@ Lemma inv_step : forall rt k t pi,
   inv ((k, t) :: rt).
 Proof.
   intros rt k t pi [I1 I2] Hnil Ht Hr.
-  destruct (reduce_type_source o tok rules prods ms Hwf rt k pi t Hr Ht) as [x [sl [Hsrc Hval]]].
+  destruct (reduce_type_source o tok err rules prods ms Hwf rt k pi t Hr Ht) as [x [sl [Hsrc Hval]]].
   destruct (source_facts rules prods ms Hwf _ _ _ _ Hsrc) as [_ [_ Hk]].
   split.
   - intros k' Hk'. simpl. destruct (k =? k') eqn:E; [|apply I1; auto].
@@ -356,7 +356,7 @@ Proof.
         pose proof (untyped_add rt (bp_rule p) t Eg Hlt Ht). split; [lia|]. intros; lia.
       * assert (Hnn : rt_get rt (bp_rule p) <> INil) by (rewrite Eg; discriminate).
         assert (Hsame : rt_get rt (bp_rule p) = t).
-        { destruct (reduce_type_source o tok rules prods ms Hwf rt _ _ _ Hr Ht)
+        { destruct (reduce_type_source o tok err rules prods ms Hwf rt _ _ _ Hr Ht)
             as [x [sl [Hsrc Hval]]].
           destruct (source_facts rules prods ms Hwf _ _ _ _ Hsrc) as [_ [_ Hk]].
           destruct Hinv as [_ I2]. destruct (I2 _ Hnn Hk) as [pi' [x' [sl' [Hsrc' Hv']]]].
@@ -365,7 +365,7 @@ Proof.
         simpl. rewrite Hsame. apply ity_identical_refl.
       * assert (Hnn : rt_get rt (bp_rule p) <> INil) by (rewrite Eg; discriminate).
         assert (Hsame : rt_get rt (bp_rule p) = t).
-        { destruct (reduce_type_source o tok rules prods ms Hwf rt _ _ _ Hr Ht)
+        { destruct (reduce_type_source o tok err rules prods ms Hwf rt _ _ _ Hr Ht)
             as [x [sl [Hsrc Hval]]].
           destruct (source_facts rules prods ms Hwf _ _ _ _ Hsrc) as [_ [_ Hk]].
           destruct Hinv as [_ I2]. destruct (I2 _ Hnn Hk) as [pi' [x' [sl' [Hsrc' Hv']]]].
@@ -382,7 +382,7 @@ Proof.
         pose proof (untyped_add rt (bp_rule p) t Eg Hlt Ht). split; [lia|]. intros; lia.
       * assert (Hnn : rt_get rt (bp_rule p) <> INil) by (rewrite Eg; discriminate).
         assert (Hsame : rt_get rt (bp_rule p) = t).
-        { destruct (reduce_type_source o tok rules prods ms Hwf rt _ _ _ Hr Ht)
+        { destruct (reduce_type_source o tok err rules prods ms Hwf rt _ _ _ Hr Ht)
             as [x [sl [Hsrc Hval]]].
           destruct (source_facts rules prods ms Hwf _ _ _ _ Hsrc) as [_ [_ Hk]].
           destruct Hinv as [_ I2]. destruct (I2 _ Hnn Hk) as [pi' [x' [sl' [Hsrc' Hv']]]].
@@ -391,7 +391,7 @@ Proof.
         simpl. rewrite Hsame. apply ity_identical_refl.
       * assert (Hnn : rt_get rt (bp_rule p) <> INil) by (rewrite Eg; discriminate).
         assert (Hsame : rt_get rt (bp_rule p) = t).
-        { destruct (reduce_type_source o tok rules prods ms Hwf rt _ _ _ Hr Ht)
+        { destruct (reduce_type_source o tok err rules prods ms Hwf rt _ _ _ Hr Ht)
             as [x [sl [Hsrc Hval]]].
           destruct (source_facts rules prods ms Hwf _ _ _ _ Hsrc) as [_ [_ Hk]].
           destruct Hinv as [_ I2]. destruct (I2 _ Hnn Hk) as [pi' [x' [sl' [Hsrc' Hv']]]].
@@ -457,9 +457,9 @@ Ltac kclash :=
        end).
 
 Lemma elem_unique : forall x t t',
-  ((fst x = true /\ t = tok) \/
+  ((fst x = true /\ t = terminal_ty tok err (snd x)) \/
    (fst x = false /\ has_type (snd x) t /\ (forall t', has_type (snd x) t' -> t = t'))) ->
-  ((fst x = true /\ t' = tok) \/ (fst x = false /\ has_type (snd x) t')) ->
+  ((fst x = true /\ t' = terminal_ty tok err (snd x)) \/ (fst x = false /\ has_type (snd x) t')) ->
   t = t'.
 Proof.
   intros x t t' [[H1 H2]|[H1 [_ H2]]] [[H3 H4]|[H3 H4]]; try congruence. auto.
@@ -508,16 +508,16 @@ Proof.
   { intros k pi x sl Hsrc Hv.
     destruct (source_facts rules prods ms Hwf _ _ _ _ Hsrc) as [[p [Hnp Hrule]] _].
     assert (Hin : In (pi, p) (indexed prods)) by (apply in_indexed; auto).
-    destruct (derive_fixed o tok rules prods _ _ _ Hd _ Hin) as [t' [Hr' Hs]].
+    destruct (derive_fixed o tok err rules prods _ _ _ Hd _ Hin) as [t' [Hr' Hs]].
     cbn [fst snd] in Hr', Hs. rewrite Hrule in Hr', Hs.
-    rewrite (reduce_type_of_source o tok rules prods fin k pi x sl Hsrc) in Hr'.
+    rewrite (reduce_type_of_source o tok err rules prods fin k pi x sl Hsrc) in Hr'.
     inversion Hr'; subst t'. destruct Hs as [Hs|[Hs _]]; [contradiction|exact Hs]. }
   apply (has_type_ind' (fun i t => rt_get fin i <> INil)).
   - intros i r f others Hn Hg.
     assert (Hfg : In f (group acts (br_name r))) by (rewrite Hg; simpl; auto).
     apply in_group_iff in Hfg. destruct Hfg as [Hfm Hfr].
     pose proof (phase1_ok_rule_typed o rules prods ms f r i Hwf H1 Hfm Hn Hfr) as Hnn.
-    rewrite (derive_mono o tok rules prods _ _ _ _ Hd Hnn). exact Hnn.
+    rewrite (derive_mono o tok err rules prods _ _ _ _ Hd Hnn). exact Hnn.
   - intros i r p0 rest p x xs t Hn K Hp Hnp Hx Hel.
     apply (Hset i p0 x false).
     + exists r. split; auto. left. split; auto. split; auto. exists rest, p, xs. auto.
@@ -600,14 +600,14 @@ Proof.
     pose proof (derive_complete _ _ Hd H1 i t (Cty i t Ht)) as Hnn.
     destruct (rt_get rt i); auto. contradiction. }
   assert (Hfin : rt_final rt) by (unfold BindingProofs.rt_final; auto).
-  pose proof (rule_types_typing o tok rules prods ms rt
-                (rt_final_sound o tok rules prods ms rt Hwf Hfin)) as Hty'.
+  pose proof (rule_types_typing o tok err rules prods ms rt
+                (rt_final_sound o tok err rules prods ms rt Hwf Hfin)) as Hty'.
   (* both type assignments agree on the terms of productions *)
   assert (Hterm : forall t s, wf_term rules t = true ->
             (term_has_ty tok err rtl t s <-> term_has_ty tok err (rule_types_of rules rt) t s)).
   { intros [[|] c] s Hw; unfold term_has_ty; simpl; [tauto|].
     destruct (wf_term_rule rules c Hw) as [rc [Hnc Hkc]]. split; intros Hin.
-    - destruct (final_typed o tok rules prods ms Hwf rt c rc Hfin Hnc Hkc) as [s' Hs'].
+    - destruct (final_typed o tok err rules prods ms Hwf rt c rc Hfin Hnc Hkc) as [s' Hs'].
       assert (Hin' : In (c, s') (rule_types_of rules rt)).
       { apply rule_types_in. split; auto. apply nth_error_Some. congruence. }
       rewrite (has_type_functional c s (Cty c s Hin) s' (Hty' c s' Hin')). exact Hin'.
